@@ -30,7 +30,9 @@ RULE = (
     "(hyperedge list, hyperedge dict, bipartite edge list, incidence matrix labelled+positional x sparse/dense, bipartite graph, dataframe, "
     "standard dict x casts, HIF dict x casts); graph-order = one bipartite (di)graph drawn from such a network, rebuilt under 5 vertex-insertion "
     "orders x 3 pair orientations (x dual); class = the class-to-class and same-class constructors; collide = to_hypergraph_dict on IDs whose "
-    "string casts collide. one evaluation = one comparison of a returned network with the source observation. "
+    "string casts collide. second-call monitors: every other roundtrip/class case edits the source in place through the public API (ID sets kept where the class "
+    "allows) and converts the same object again; 30 % of the from_* calls are repeated on the same representation object after the first result was defaced. "
+    "one evaluation = one comparison of a returned network with the source observation. "
     "distinct_nontrivial = distinct (pair, variant, source structure) whose source has at least one incidence"
 )
 ASSUMPTIONS = [
@@ -50,6 +52,8 @@ TECHNIQUE = "runtime monitoring: round-trip post-condition monitors against an o
 CASE_TIMEOUT = 60
 
 UND = ("Hypergraph", "SimplicialComplex")
+AGAIN_TO = "converted-again-after-in-place-mutation"      # to_* on an object that was converted before and edited since (per-object caches)
+AGAIN_FROM = "from-called-again-after-first-result-changed"  # from_* on the same representation object after the first result was defaced
 ORDERS = ("node-vertices-first", "edge-vertices-first", "interleaved", "shuffled", "incidences-first")
 ORIENT = ("node-edge", "edge-node", "mixed")
 
@@ -69,14 +73,14 @@ C2C = ("Hypergraph(Hypergraph)", "Hypergraph(DiHypergraph)", "Hypergraph(Simplic
 
 
 def floors(tier):
-    """Quick floors are about half of what seed 0 shows (open findings cut some paths short); thorough = 35 x quick for 40 x the cases."""
+    """Quick floors are 50-75 % of what every seed shows on a tree without open findings; thorough = 35 x quick for 40 x the cases."""
     k = 1 if tier == "quick" else 35
     f = {}
     for p, classes in PAIRS.items():
         for c in classes:
-            f[f"pair:{p}:{c}"] = 1000 * k
+            f[f"pair:{p}:{c}"] = 1500 * k
     for c in C2C:
-        f[f"class:{c}"] = 300 * k
+        f[f"class:{c}"] = 400 * k
     for o in ORDERS:
         f[f"graph-order:{o}"] = 300 * k
     f.update({
@@ -84,7 +88,8 @@ def floors(tier):
         "graph-trigger:edge-vertices-inserted-first": 800 * k, "graph-trigger:node-vertices-inserted-first": 400 * k,
         "feat:isolated-node": 700 * k, "feat:empty-edge": 1000 * k, "feat:multi-edge": 1200 * k, "feat:explicit-id": 4000 * k,
         "feat:node-attrs": 2000 * k, "feat:edge-attrs": 3000 * k, "feat:net-attrs": 2000 * k,
-        "cast:int": 1000 * k, "cast:none-str": 1000 * k, "hif:class-checked": 4000 * k,
+        "cast:int": 1000 * k, "cast:none-str": 1000 * k, "hif:class-checked": 5000 * k,
+        f"again:{AGAIN_TO}": 12000 * k, f"again:{AGAIN_FROM}": 6000 * k, "again:mutated-in-place": 2500 * k,
         "rejected:colliding-cast": 200 if tier == "quick" else 2500,
     })
     return f
@@ -95,22 +100,25 @@ class Ctx:
     def __init__(self, mon, net, info, src):
         self.mon, self.net, self.info, self.src = mon, net, info, src
         self.cls = src.cls
+        self.override = None  # trigger class that replaces the pair's own while a second-call monitor runs
 
     def witness(self, extra=""):
         return "construction:\n  " + "\n  ".join(self.info["hist"]) + f"\nsource: {self.src.brief()}\n{extra}"
+
+    def fire(self, name, trigger, clause, what, wit):
+        self.mon.fail(f"{name}|{self.override or trigger}|{clause}", what, wit)
 
     def check(self, pair, trigger, exp, back, clauses, variant="", name=None):
         """Compare one returned network with what the source demands."""
         mon = self.mon
         got = O.obs(back)
         mon.ev()
-        mon.note(f"pair:{pair.split('|')[0]}:{self.cls}" if pair in PAIRS else f"eval:{pair}")
+        mon.note((f"pair:{pair}:{self.cls}" if pair in PAIRS else f"eval:{pair}") if not self.override else f"again:{self.override}")
         if self.src.inc:
-            mon.nontrivial((pair, variant, self.src.cls, sorted(map(repr, self.src.inc)), len(self.src.nodes), len(self.src.edges)))
+            mon.nontrivial((pair, variant, self.override, self.src.cls, sorted(map(repr, self.src.inc)), len(self.src.nodes), len(self.src.edges)))
         name = name or NAMES.get(pair, pair)
         for clause, detail in O.diff(exp, got, clauses):
-            mon.fail(f"{name}|{trigger}|{clause}", f"{name} [{variant}] on a {self.cls}: {clause}: {detail}",
-                     self.witness(f"returned: {got.brief()}"))
+            self.fire(name, trigger, clause, f"{name} [{variant}] on a {self.cls}: {clause}: {detail}", self.witness(f"returned: {got.brief()}"))
 
     def guarded(self, pair, trigger, fn, variant="", clause="raises"):
         """Run one round trip; an exception is a violation of 'converting ... and back yields ...'."""
@@ -120,8 +128,28 @@ class Ctx:
             if O.is_watchdog(exc):
                 raise
             self.mon.ev()
-            self.mon.fail(f"{NAMES.get(pair, pair)}|{trigger}|{clause}", f"{NAMES.get(pair, pair)} [{variant}] on a {self.cls} raised {type(exc).__name__}: {exc}",
-                          self.witness())
+            self.fire(NAMES.get(pair, pair), trigger, clause, f"{NAMES.get(pair, pair)} [{variant}] on a {self.cls} raised {type(exc).__name__}: {exc}", self.witness())
+        finally:
+            if self.override == AGAIN_FROM:
+                self.override = None
+
+    def again(self, rng, back, remake, compare):
+        """Second call of the from_* side on the *same* representation object, after the first result was defaced:
+        the second result must again be what the source demands (a from_* that hands out a cached network fails here)."""
+        if self.override or rng.random() > 0.3:
+            return
+        try:
+            O.scribble(back)
+        except Exception as exc:
+            if O.is_watchdog(exc):
+                raise
+            self.mon.note("again:scribble-not-possible")
+            return
+        self.override = AGAIN_FROM
+        try:
+            compare(remake())
+        finally:
+            self.override = None
 
 
 NO_DH = "no-dihypergraph-returned"  # the call raised or returned another class: one mechanism, one key
@@ -165,31 +193,36 @@ def p_hyperedge_list(c, rng):
     if how == "to_dihypergraph(list)":  # the documented function with its default create_using: its own call site
         name, trigger = "to_dihypergraph", "create_using-omitted"
 
-    def go():
+    def make():
         if how == "from_hyperedge_list":
-            back = xgi.from_hyperedge_list(lst)
-        elif how.startswith("from_hyperedge_list(create_using="):
-            back = xgi.from_hyperedge_list(lst, create_using=_cls(how[len("from_hyperedge_list(create_using="):-1]))
-        elif how == "to_hypergraph(list)":
-            back = xgi.to_hypergraph(lst)
-        elif how == "to_dihypergraph(list)":
-            back = xgi.to_dihypergraph(lst)
-        else:
-            back = _cls(how.split("(")[0])(lst)
+            return xgi.from_hyperedge_list(lst)
+        if how.startswith("from_hyperedge_list(create_using="):
+            return xgi.from_hyperedge_list(lst, create_using=_cls(how[len("from_hyperedge_list(create_using="):-1]))
+        if how == "to_hypergraph(list)":
+            return xgi.to_hypergraph(lst)
+        if how == "to_dihypergraph(list)":
+            return xgi.to_dihypergraph(lst)
+        return _cls(how.split("(")[0])(lst)
+
+    def compare(back):
         got = O.obs(back)
         c.mon.ev()
         if src.directed and got.cls != "DiHypergraph":
-            c.mon.fail(f"{name}|{trigger}|{NO_DH}", f"{how} on the dimembers() list of a DiHypergraph returned a {got.cls}", c.witness(f"list: {lst!r}\nreturned: {got.brief()}"))
+            c.fire(name, trigger, NO_DH, f"{how} on the dimembers() list of a DiHypergraph returned a {got.cls}", c.witness(f"list: {lst!r}\nreturned: {got.brief()}"))
             return
         # edges carry no label in a list: compare position for position
         exp = _pos_obs(src)
         gpos = _pos_obs(got)
-        c.mon.note(f"pair:hyperedge_list:{c.cls}")
+        c.mon.note(f"pair:hyperedge_list:{c.cls}" if not c.override else f"again:{c.override}")
         if src.inc:
-            c.mon.nontrivial(("hyperedge_list", how, src.cls, sorted(map(repr, src.inc))))
+            c.mon.nontrivial(("hyperedge_list", how, c.override, src.cls, sorted(map(repr, src.inc))))
         for clause, detail in O.diff(exp, gpos, O.INC):
-            c.mon.fail(f"{name}|{trigger}|{clause}", f"{how} on a {c.cls}: position-for-position {clause}: {detail}",
-                       c.witness(f"list: {lst!r}\nreturned: {got.brief()}"))
+            c.fire(name, trigger, clause, f"{how} on a {c.cls}: position-for-position {clause}: {detail}", c.witness(f"list: {lst!r}\nreturned: {got.brief()}"))
+
+    def go():
+        back = make()
+        compare(back)
+        c.again(rng, back, make, compare)
 
     c.guarded(name, trigger, go, how, clause=NO_DH if name == "to_dihypergraph" else "raises")
 
@@ -209,24 +242,30 @@ def p_hyperedge_dict(c, rng):
     if how == "to_dihypergraph(dict)":
         name, trigger = "to_dihypergraph", "create_using-omitted"
 
-    def go():
+    def make():
         if how == "from_hyperedge_dict":
-            back = xgi.from_hyperedge_dict(d)
-        elif how.startswith("from_hyperedge_dict(create_using="):
-            back = xgi.from_hyperedge_dict(d, create_using=_cls(how[len("from_hyperedge_dict(create_using="):-1]))
-        elif how == "from_simplex_dict":
-            back = xgi.from_simplex_dict(d)
-        elif how == "to_hypergraph(dict)":
-            back = xgi.to_hypergraph(d)
-        elif how == "to_dihypergraph(dict)":
-            back = xgi.to_dihypergraph(d)
-        else:
-            back = _cls(how.split("(")[0])(d)
+            return xgi.from_hyperedge_dict(d)
+        if how.startswith("from_hyperedge_dict(create_using="):
+            return xgi.from_hyperedge_dict(d, create_using=_cls(how[len("from_hyperedge_dict(create_using="):-1]))
+        if how == "from_simplex_dict":
+            return xgi.from_simplex_dict(d)
+        if how == "to_hypergraph(dict)":
+            return xgi.to_hypergraph(d)
+        if how == "to_dihypergraph(dict)":
+            return xgi.to_dihypergraph(d)
+        return _cls(how.split("(")[0])(d)
+
+    def compare(back):
         if src.directed and not isinstance(back, xgi.DiHypergraph):
             c.mon.ev()
-            c.mon.fail(f"{name}|{trigger}|{NO_DH}", f"{how} on the dimembers(dtype=dict) of a DiHypergraph returned a {type(back).__name__}", c.witness(f"dict: {d!r}"))
+            c.fire(name, trigger, NO_DH, f"{how} on the dimembers(dtype=dict) of a DiHypergraph returned a {type(back).__name__}", c.witness(f"dict: {d!r}"))
             return
         c.check("hyperedge_dict", trigger, O.expected(src), back, O.INC, how, name=name)
+
+    def go():
+        back = make()
+        compare(back)
+        c.again(rng, back, make, compare)
 
     c.guarded(name, trigger, go, how, clause=NO_DH if name == "to_dihypergraph" else "raises")
 
@@ -240,11 +279,12 @@ def p_bipartite_edgelist(c, rng):
     elif shape == "tuple-of-tuples":
         el = tuple(tuple(t) for t in el)
     trigger = "no-incidences" if len(el) == 0 else src.cls
+    exp = O.expected(src, cls="DiHypergraph" if src.directed else "Hypergraph")
 
     def go():
         back = xgi.from_bipartite_edgelist(el)
-        exp = O.expected(src, cls="DiHypergraph" if src.directed else "Hypergraph")
         c.check("bipartite_edgelist", trigger, exp, back, O.INC, shape)
+        c.again(rng, back, lambda: xgi.from_bipartite_edgelist(el), lambda b: c.check("bipartite_edgelist", trigger, exp, b, O.INC, shape))
 
     c.guarded("bipartite_edgelist", trigger, go, shape)
 
@@ -260,7 +300,9 @@ def p_incidence_matrix(c, rng):
         if rng.random() < 0.3:
             nl, el = np.array(nl, dtype=object), np.array(el, dtype=object)
         back = xgi.from_incidence_matrix(I, nodelabels=nl, edgelabels=el)
-        c.check("incidence_matrix", src.cls, O.expected(src), back, O.INC, f"index=True sparse={sparse}")
+        v = f"index=True sparse={sparse}"
+        c.check("incidence_matrix", src.cls, O.expected(src), back, O.INC, v)
+        c.again(rng, back, lambda: xgi.from_incidence_matrix(I, nodelabels=nl, edgelabels=el), lambda b: c.check("incidence_matrix", src.cls, O.expected(src), b, O.INC, v))
 
     def positional():
         I = xgi.to_incidence_matrix(net, sparse=not sparse)
@@ -285,6 +327,7 @@ def p_bipartite_graph(c, rng):
         exp = O.expected(src, lambda n: n2i.get(n, ("unmapped", n)), lambda e: e2i.get(e, ("unmapped", e)),
                          cls="DiHypergraph" if src.directed else "Hypergraph")
         c.check("bipartite_graph", src.cls, exp, back, O.INC, "index=True")
+        c.again(rng, back, lambda: xgi.from_bipartite_graph(G), lambda b: c.check("bipartite_graph", src.cls, exp, b, O.INC, "index=True"))
 
     def positional():
         G = xgi.to_bipartite_graph(net)
@@ -306,15 +349,19 @@ def p_dataframe(c, rng):
 
     def go():
         df = xgi.to_bipartite_pandas_dataframe(net)
-        if how == "default-columns":
-            back = xgi.from_bipartite_pandas_dataframe(df)
-        elif how == "named-columns":
-            back = xgi.from_bipartite_pandas_dataframe(df, node_column="Node ID", edge_column="Edge ID")
-        elif how == "swapped-columns":
-            back = xgi.from_bipartite_pandas_dataframe(df[["Edge ID", "Node ID"]], node_column=1, edge_column=0)
-        else:
-            back = xgi.Hypergraph(df)
+
+        def make():
+            if how == "default-columns":
+                return xgi.from_bipartite_pandas_dataframe(df)
+            if how == "named-columns":
+                return xgi.from_bipartite_pandas_dataframe(df, node_column="Node ID", edge_column="Edge ID")
+            if how == "swapped-columns":
+                return xgi.from_bipartite_pandas_dataframe(df[["Edge ID", "Node ID"]], node_column=1, edge_column=0)
+            return xgi.Hypergraph(df)
+
+        back = make()
         c.check("dataframe", src.cls, O.expected(src), back, O.INC, how)
+        c.again(rng, back, make, lambda b: c.check("dataframe", src.cls, O.expected(src), b, O.INC, how))
 
     c.guarded("dataframe", src.cls, go, how)
     if src.cls == "SimplicialComplex":
@@ -326,8 +373,8 @@ def p_dataframe(c, rng):
             c.mon.note("eval:dataframe-into-complex")
             fam_s, fam_g = set(src.mem.values()), set(got.mem.values())
             if fam_s != fam_g or len(got.mem) != len(fam_g):
-                c.mon.fail(f"{NAMES['dataframe']}|SimplicialComplex-into-SimplicialComplex|simplices",
-                           f"family of member sets differs: {O._sd(fam_s, fam_g)}", c.witness(f"returned: {got.brief()}"))
+                c.fire(NAMES["dataframe"], "SimplicialComplex-into-SimplicialComplex", "simplices",
+                       f"family of member sets differs: {O._sd(fam_s, fam_g)}", c.witness(f"returned: {got.brief()}"))
 
         c.guarded("dataframe", "SimplicialComplex-into-SimplicialComplex", go_sc, "create_using=SimplicialComplex")
 
@@ -346,11 +393,13 @@ def p_hypergraph_dict(c, rng):
             if O.collides(src.nodes) or O.collides(src.edges):
                 c.mon.note("rejected:colliding-cast")
                 return
-            c.mon.fail(f"to_hypergraph_dict|{src.cls}|refused-without-collision", f"XGIError although no two IDs have the same string cast: {exc}", c.witness())
+            c.fire("to_hypergraph_dict", src.cls, "refused-without-collision", f"XGIError although no two IDs have the same string cast: {exc}", c.witness())
             return
         back = xgi.from_hypergraph_dict(d, nodetype=nt, edgetype=et)
         clauses = tuple(x for x in O.ALL if x != "class")
-        c.check("hypergraph_dict", src.cls, O.expected(src, nmap, emap), back, clauses, variant)
+        exp = O.expected(src, nmap, emap)
+        c.check("hypergraph_dict", src.cls, exp, back, clauses, variant)
+        c.again(rng, back, lambda: xgi.from_hypergraph_dict(d, nodetype=nt, edgetype=et), lambda b: c.check("hypergraph_dict", src.cls, exp, b, clauses, variant))
 
     c.guarded("hypergraph_dict", src.cls, go, variant)
 
@@ -366,8 +415,11 @@ def p_hif_dict(c, rng):
     def go():
         d = xgi.to_hif_dict(net)
         back = xgi.from_hif_dict(d, nodetype=nt, edgetype=et)
-        c.mon.note("hif:class-checked")
-        c.check("hif_dict", src.cls, O.expected(src, nmap, emap), back, O.ALL, variant)
+        if not c.override:
+            c.mon.note("hif:class-checked")
+        exp = O.expected(src, nmap, emap)
+        c.check("hif_dict", src.cls, exp, back, O.ALL, variant)
+        c.again(rng, back, lambda: xgi.from_hif_dict(d, nodetype=nt, edgetype=et), lambda b: c.check("hif_dict", src.cls, exp, b, O.ALL, variant))
 
     c.guarded("hif_dict", src.cls, go, variant)
 
@@ -403,6 +455,24 @@ def case_roundtrip(mon, idx, rng):
         mon.sample(c.info["hist"])
     if repr(O.obs(c.net).brief()) != before:  # C08's business; counted only, so that a surprise here can be explained
         mon.note("source-changed-by-a-converter")
+        return
+    # second pass: the same object, edited in place through the public API since it was last converted
+    if idx % 2:
+        return
+    calls = O.mutate(rng, c.net)
+    if not calls or not O.valid(c.net):
+        mon.note("again:mutation-not-usable")
+        return
+    c.info["hist"] = c.info["hist"] + ["-- every pair was run once on the network so far; then, in place:"] + calls
+    c.src = O.obs(c.net)
+    if repr(c.src.brief()) == before:
+        mon.note("again:mutation-without-effect")
+        return
+    mon.note("again:mutated-in-place")
+    c.override = AGAIN_TO
+    for pair, classes in PAIRS.items():
+        if cls in classes:
+            RUN[pair](c, rng)
 
 
 # ---- from_bipartite_graph: insertion-order independence --------------------------------
@@ -481,20 +551,27 @@ def case_graph_order(mon, idx, rng):
         mon.note("graph-order:dual")
     variant = f"order={order} orientation={orient} naming={naming} dual={dual}"
 
-    def go():
-        back = xgi.from_bipartite_graph(G, dual=dual)
+    def compare(back, trig):
         got = O.obs(back)
         mon.ev()
-        mon.nontrivial(("graph-order", variant, src.cls, sorted(map(repr, src.inc))))
+        mon.nontrivial(("graph-order", variant, trig, src.cls, sorted(map(repr, src.inc))))
         exp = O.expected(src, nv.__getitem__, evx.__getitem__, cls="DiHypergraph" if src.directed else "Hypergraph")
         wit = c.witness(f"graph ({variant}): vertices={list(G.nodes(data='bipartite'))} edges={list(G.edges)}\nreturned: {got.brief()}")
         name = "from_bipartite_graph"
         if got.inc != exp.inc or got.inc2 != exp.inc:
             rev = {(t[1], t[0]) + tuple(t[2:]) for t in exp.inc}
             clause = "nodes-edges-swapped" if (got.inc & rev) - exp.inc else "incidences"
-            mon.fail(f"{name}|{trigger}|{clause}", f"the hypergraph depends on the insertion order of the graph's vertices ({variant}): {O._sd(exp.inc, got.inc)}", wit)
+            mon.fail(f"{name}|{trig}|{clause}", f"the hypergraph depends on the insertion order of the graph's vertices ({variant}): {O._sd(exp.inc, got.inc)}", wit)
         elif not dual and set(got.nodes) != set(exp.nodes):
-            mon.fail(f"{name}|{trigger}|node-set", f"vertices with bipartite=0 are not exactly the nodes: {O._sd(set(exp.nodes), set(got.nodes))}", wit)
+            mon.fail(f"{name}|{trig}|node-set", f"vertices with bipartite=0 are not exactly the nodes: {O._sd(set(exp.nodes), set(got.nodes))}", wit)
+
+    def go():
+        back = xgi.from_bipartite_graph(G, dual=dual)
+        compare(back, trigger)
+        if idx % 3 == 0:  # the same graph object converted again after the first result was defaced
+            O.scribble(back)
+            mon.note(f"again:{AGAIN_FROM}")
+            compare(xgi.from_bipartite_graph(G, dual=dual), AGAIN_FROM)
 
     c.guarded("from_bipartite_graph", trigger, go, variant)
 
@@ -513,21 +590,21 @@ def case_class(mon, idx, rng):
     c = _source(mon, rng, srcname)
     if c is None:
         return
-    src = c.src
     how = rng.choice(("constructor", "to_function"))
     fn = {"Hypergraph": xgi.to_hypergraph, "DiHypergraph": xgi.to_dihypergraph, "SimplicialComplex": xgi.to_simplicial_complex}[tgt]
 
     def go():
+        src = c.src
         back = _cls(tgt)(c.net) if how == "constructor" else fn(c.net)
         got = O.obs(back)
         mon.ev()
-        mon.note(f"class:{name}")
+        mon.note(f"class:{name}" if not c.override else f"again:{c.override}")
         if src.inc:
-            mon.nontrivial((name, how, sorted(map(repr, src.inc)), repr(src.gattr)))
+            mon.nontrivial((name, how, c.override, sorted(map(repr, src.inc)), repr(src.gattr)))
         wit = c.witness(f"returned ({how}): {got.brief()}")
 
         def fire(clause, what):
-            mon.fail(f"{name}|{srcname}|{clause}", f"{name} via {how}: {what}", wit)
+            c.fire(name, srcname, clause, f"{name} via {how}: {what}", wit)
 
         if got.cls != tgt:
             fire("class", f"expected a {tgt}, got {got.cls}")
@@ -580,6 +657,14 @@ def case_class(mon, idx, rng):
                 fire("edge-attributes", f"(source, target) for source edges with a unique member set: {bad}")
 
     c.guarded(name, srcname, go, how)
+    if idx % 2 == 0:  # the same source object, edited in place since it was last converted
+        calls = O.mutate(rng, c.net)
+        if calls and O.valid(c.net):
+            c.info["hist"] = c.info["hist"] + [f"-- {name} was run once on the network so far; then, in place:"] + calls
+            c.src = O.obs(c.net)
+            mon.note("again:mutated-in-place")
+            c.override = AGAIN_TO
+            c.guarded(name, srcname, go, how)
 
 
 # ---- colliding string casts ------------------------------------------------------------------
